@@ -144,7 +144,9 @@ def attempt_run(name, defs, tier, seed, cfgs, tlc_workers=8):
         nb = len(m["blocks"])
         pbytes = []
         for x in rec["path"]:
-            pbytes.append(rng.choice(block_bytes(m, x)))
+            # bias towards the ends of the block: off-by-one mistakes in range tests live there
+            bb = block_bytes(m, x)
+            pbytes.append(rng.choice([bb[0], bb[-1], rng.choice(bb)]))
         out = []
         for x in range(1, nb + 1):
             o = rec["term"][x - 1]
